@@ -1,14 +1,15 @@
 #!/bin/sh
-# dev helper: apply a seeded change to /repo, run the named checks (quick), undo it straight afterwards
-# usage: runseed.sh <seed-name> <Cxx> [<Cxx>...]
+# dev helper: run the named checks (quick unless TIER is set) against a seeded change.  The change is applied in a scratch
+# worktree of /repo (outside /repo and /verif, removed afterwards) and the checks are pointed at it with FASTOR_REPO, so /repo
+# itself is never modified and other runs are not disturbed.   usage: runseed.sh <seed-name> <Cxx> [<Cxx>...]
 name=$1; shift
-[ -z "$(git -C /repo status --porcelain --untracked-files=no)" ] || { echo "/repo not clean"; exit 3; }
-git -C /repo apply /verif/seeded/$name/patch.diff || exit 3
-trap 'git -C /repo checkout -- .' EXIT INT TERM
+wt=/tmp/seedrun.$$
+git -C /repo worktree add --detach $wt >/dev/null 2>&1 || exit 3
+trap 'git -C /repo worktree remove --force $wt >/dev/null 2>&1; rm -f /tmp/runseed.$$.log' EXIT INT TERM
+git -C $wt apply /verif/seeded/$name/patch.diff || exit 3
 for c in "$@"; do
-  VERIF_NO_EVIDENCE=1 /verif/bin/check $c --tier ${TIER:-quick} > /tmp/runseed.$$.log 2>&1; rc=$?
+  FASTOR_REPO=$wt VERIF_NO_EVIDENCE=1 /verif/bin/check $c --tier ${TIER:-quick} > /tmp/runseed.$$.log 2>&1; rc=$?
   echo "== seed $name check $c exit $rc"
   grep -E "VIOLATION|violation:|UNDECIDED|BROKEN|KNOWN" /tmp/runseed.$$.log | cut -c1-${CUT:-420} | head -${LINES_MAX:-8}
   tail -1 /tmp/runseed.$$.log | cut -c1-300
 done
-rm -f /tmp/runseed.$$.log
